@@ -57,6 +57,24 @@ private def rows? : SExp → Option (List (List (List Char)))
 private def ofTexts (l : List (List Char)) : SExp := .list (l.map fun f => .atom (quoteChars f))
 private def ofRows (l : List (List (List Char))) : SExp := .list (l.map ofTexts)
 
+/-- StoreFilter cells: `N` None, `nan`, `nat`, `pinf`, `ninf`, `p:<tag>` any other non-string value, a quoted atom = a string. -/
+private def cell? : SExp → Option (Cell String)
+  | .atom "N" => some .none
+  | .atom "nan" => some .nan
+  | .atom "nat" => some .nat
+  | .atom "pinf" => some .posInf
+  | .atom "ninf" => some .negInf
+  | .atom s =>
+    if s.startsWith "p:" then some (.plain s)
+    else (unquote s).map .text
+  | _ => none
+
+private def ofCell : Cell String → SExp
+  | .none => .atom "N" | .nan => .atom "nan" | .nat => .atom "nat"
+  | .posInf => .atom "pinf" | .negInf => .atom "ninf"
+  | .text s => .atom (quoteChars s)
+  | .plain s => .atom s
+
 def csvOps : List SExp → Option String
   | [.atom "csv.write", d, q, fs] => do
       let d ← char? d; let q ← char? q; let fs ← texts? fs
@@ -69,10 +87,9 @@ def csvOps : List SExp → Option String
         | .ok r => ofTexts r
         | .error e => .atom ("err:" ++ e.toString)
       let imported : SExp :=
-        if d = '\t' then ofTexts (importLineTsv line)
-        else match importLine d q line with
-          | .ok r => ofTexts r
-          | .error e => .atom ("err:" ++ e.toString)
+        match importLine d q line with     -- every delimiter, tab included (repaired in 82942dd)
+        | .ok r => ofTexts r
+        | .error e => .atom ("err:" ++ e.toString)
       pure (answer (.ok (.list [.atom (quoteChars line), parsed, imported])))
   | [.atom "csv.parse", d, q, line] => do
       let d ← char? d; let q ← char? q; let line ← text? line
@@ -80,9 +97,18 @@ def csvOps : List SExp → Option String
   | [.atom "csv.import", d, q, line] => do
       let d ← char? d; let q ← char? q; let line ← text? line
       pure (answer ((importLine d q line).map ofTexts))
-  | [.atom "csv.importtsv", line] => do
+  | [.atom "csv.importtsv", q, line] => do
+      let q ← char? q; let line ← text? line
+      pure (answer ((importLineTsv q line).map ofTexts))
+  | [.atom "csv.importtsvold", line] => do      -- historical path (pinned tree, repaired in 82942dd)
       let line ← text? line
-      pure (answer (.ok (ofTexts (importLineTsv line))))
+      pure (answer (.ok (ofTexts (importTsvOld line))))
+  | [.atom "csv.sfenc", v] => do
+      let v ← cell? v
+      pure (answer (.ok (ofCell (sfEncode storeFilterDefault v))))
+  | [.atom "csv.sfdec", v] => do
+      let v ← cell? v
+      pure (answer (.ok (ofCell (sfDecode storeFilterDefault v))))
   | [.atom "csv.layout", ii, ic, names, cols, index, cells] => do
       let ii ← bool? ii; let ic ← bool? ic
       let names ← texts? names; let cols ← rows? cols; let index ← rows? index; let cells ← rows? cells
